@@ -139,9 +139,123 @@ theorem dims_ne_of_ne (f : Fld) (hd : DimsOk f) (a b : Nat) (ha : a < f.mesh.ndi
   injection h1 with h1
   exact hab h1.symm
 
+/-- `periodic` in list form: some character of `bc` is the whole axis name -/
+def perL (bc d : String) : Bool := bc.toList.any fun ch => decide ([ch] = d.toList)
+
+theorem periodic_eq_perL (f : Fld) (ax : Nat) : periodic f ax = perL f.mesh.bc (f.mesh.region.dims.getD ax "") := by
+  unfold periodic perL
+  congr 1
+  funext ch
+  have : (String.singleton ch == f.mesh.region.dims.getD ax "") = decide ([ch] = (f.mesh.region.dims.getD ax "").toList) := by
+    rw [Bool.eq_iff_iff]
+    simp only [beq_iff_eq, decide_eq_true_eq]
+    rw [← String.toList_inj, String.toList_singleton]
+  exact this
+
+theorem swapChar_spec (da db : String) (ca cb : Char) (ha : da.toList = [ca]) (hb : db.toList = [cb]) (c : Char) :
+    swapChar da db c = if c = ca then cb else if c = cb then ca else c := by
+  unfold swapChar
+  rw [ha, hb]
+  simp
+
+theorem perL_turn (bc da db d : String) (ca cb : Char) (ha : da.toList = [ca]) (hb : db.toList = [cb]) (hne : ca ≠ cb) :
+    perL (String.ofList (bc.toList.map (swapChar da db))) d
+      = perL bc (if d = da then db else if d = db then da else d) := by
+  unfold perL
+  rw [String.toList_ofList, List.any_map]
+  congr 1
+  funext ch
+  simp only [Function.comp]
+  rw [swapChar_spec da db ca cb ha hb]
+  by_cases h1 : d = da
+  · subst h1
+    simp only [if_true, ha, hb]
+    by_cases c1 : ch = ca
+    · subst c1; simp [hne, Ne.symm hne]
+    · by_cases c2 : ch = cb
+      · subst c2; simp [c1]
+      · simp [c1, c2]
+  · by_cases h2 : d = db
+    · subst h2
+      simp only [h1, if_false, if_true, ha, hb]
+      by_cases c1 : ch = ca
+      · subst c1; simp
+      · by_cases c2 : ch = cb
+        · subst c2; simp [c1, hne]
+        · simp [c1, c2]
+    · simp only [h1, h2, if_false]
+      have n1 : d.toList ≠ [ca] := by intro e; apply h1; rw [← String.toList_inj, e, ha]
+      have n2 : d.toList ≠ [cb] := by intro e; apply h2; rw [← String.toList_inj, e, hb]
+      by_cases c1 : ch = ca
+      · subst c1
+        simp only [if_true]
+        have : ¬ ([cb] = d.toList) := fun e => n2 e.symm
+        have : ¬ ([ch] = d.toList) := fun e => n1 e.symm
+        simp [*]
+      · by_cases c2 : ch = cb
+        · subst c2
+          simp only [c1, if_false, if_true]
+          have : ¬ ([ca] = d.toList) := fun e => n1 e.symm
+          have : ¬ ([ch] = d.toList) := fun e => n2 e.symm
+          simp [*]
+        · simp [c1, c2]
+
+
+theorem perL_empty (d : String) : perL "" d = false := by
+  unfold perL
+  have : ("" : String).toList = [] := by decide
+  rw [this]; rfl
+
+theorem single_of_length (s : String) (h : s.toList.length = 1) : ∃ c, s.toList = [c] := by
+  match hq : s.toList, h with
+  | [c], _ => exact ⟨c, rfl⟩
+
+/-- periodicity after the turn: the two axes of the plane exchange it, every other axis keeps it -/
+theorem periodic_turn (f R : Fld) (a b : Nat) (hd : DimsOk f) (ha : a < f.mesh.ndim) (hb : b < f.mesh.ndim)
+    (hab : a ≠ b) (ht : BcTurns f a b) (hdims : R.mesh.region.dims = f.mesh.region.dims)
+    (hbc : R.mesh.bc = rotBc1 f.mesh.bc (f.mesh.region.dims.getD a "") (f.mesh.region.dims.getD b "")) :
+    periodic R a = periodic f b ∧ periodic R b = periodic f a ∧
+    ∀ e, e < f.mesh.ndim → e ≠ a → e ≠ b → periodic R e = periodic f e := by
+  have hne := dims_ne_of_ne f hd a b ha hb hab
+  simp only [periodic_eq_perL, hdims, hbc]
+  unfold rotBc1
+  by_cases hsw : (!(f.mesh.bc == "neumann" || f.mesh.bc == "dirichlet" || f.mesh.bc == "")
+      && (f.mesh.region.dims.getD a "").toList.length == 1 && (f.mesh.region.dims.getD b "").toList.length == 1) = true
+  · rw [if_pos hsw]
+    simp only [Bool.and_eq_true, beq_iff_eq] at hsw
+    obtain ⟨ca, hca⟩ := single_of_length _ hsw.1.2
+    obtain ⟨cb, hcb⟩ := single_of_length _ hsw.2
+    have hcne : ca ≠ cb := by
+      intro e; apply hne; rw [← String.toList_inj, hca, hcb, e]
+    refine ⟨?_, ?_, ?_⟩
+    · rw [perL_turn _ _ _ _ ca cb hca hcb hcne, if_pos rfl]
+    · rw [perL_turn _ _ _ _ ca cb hca hcb hcne, if_neg (Ne.symm hne), if_pos rfl]
+    · intro e he hea heb
+      rw [perL_turn _ _ _ _ ca cb hca hcb hcne]
+      have n1 := dims_ne_of_ne f hd e a he ha hea
+      have n2 := dims_ne_of_ne f hd e b he hb heb
+      rw [if_neg n1, if_neg n2]
+  · rw [if_neg hsw]
+    refine ⟨?_, ?_, fun _ _ _ _ => rfl⟩
+    all_goals
+      rcases ht with ⟨s1, s2, w1, w2⟩ | hp
+      · -- no swap although both names are single characters and bc is no word: bc is empty
+        have hempty : f.mesh.bc = "" := by
+          by_contra hne'
+          apply hsw
+          simp only [Bool.and_eq_true, Bool.not_eq_true', Bool.or_eq_false_iff, beq_eq_false_iff_ne, beq_iff_eq, ne_eq]
+          exact ⟨⟨⟨⟨w1, w2⟩, hne'⟩, s1⟩, s2⟩
+        rw [hempty, perL_empty, perL_empty]
+      · rw [periodic_eq_perL, periodic_eq_perL] at hp
+        first | exact hp | exact hp.symm
+
 theorem rotMesh_ok (f : Fld) (m' : Mesh) (a b : Nat) (wf : MeshWf f) (ha : a < f.mesh.ndim) (hb : b < f.mesh.ndim)
-    (hab : a ≠ b) (h : rotMesh f.mesh (f.mesh.region.dims.getD a "") (f.mesh.region.dims.getD b "") = .ok m') :
-    m'.n = swapAt f.mesh.n a b ∧ m'.bc = f.mesh.bc ∧ m'.region.dims = f.mesh.region.dims ∧
+    (hab : a ≠ b)
+    (hlow : (rotBc1 f.mesh.bc (f.mesh.region.dims.getD a "") (f.mesh.region.dims.getD b "")).toLower
+      = rotBc1 f.mesh.bc (f.mesh.region.dims.getD a "") (f.mesh.region.dims.getD b ""))
+    (h : rotMesh f.mesh (f.mesh.region.dims.getD a "") (f.mesh.region.dims.getD b "") = .ok m') :
+    m'.n = swapAt f.mesh.n a b ∧
+    m'.bc = rotBc1 f.mesh.bc (f.mesh.region.dims.getD a "") (f.mesh.region.dims.getD b "") ∧ m'.region.dims = f.mesh.region.dims ∧
     m'.region.pmin.length = f.mesh.ndim ∧
     (∀ x, x < f.mesh.ndim → m'.region.edge x = if x = a then f.mesh.region.edge b
         else if x = b then f.mesh.region.edge a else f.mesh.region.edge x) := by
@@ -175,7 +289,7 @@ theorem rotMesh_ok (f : Fld) (m' : Mesh) (a b : Nat) (wf : MeshWf f) (ha : a < f
                   ((f.mesh.region.center).getD b 0 + (f.mesh.region.lo a - (f.mesh.region.center).getD a 0))).length
                   = f.mesh.ndim := by
                 rw [setAt_length, setAt_length]; rfl
-              refine ⟨rfl, wf.bc_lower, r3, by rw [r1, tab_length, hl], ?_⟩
+              refine ⟨rfl, hlow, r3, by rw [r1, tab_length, hl], ?_⟩
               intro x hx
               have hpl : f.mesh.region.pmin.length = f.mesh.ndim := rfl
               unfold Region.edge Region.hi Region.lo
@@ -207,10 +321,11 @@ theorem rotMesh_ok (f : Fld) (m' : Mesh) (a b : Nat) (wf : MeshWf f) (ha : a < f
 
 
 /-- the geometry part of a quarter turn -/
-theorem isRot90_of_mesh (f R : Fld) (a b : Nat) (wf : MeshWf f) (ha : a < f.mesh.ndim) (hb : b < f.mesh.ndim)
+theorem isRot90_of_mesh (f R : Fld) (a b : Nat) (wf : MeshWf f) (tw : TurnWf f a b) (ha : a < f.mesh.ndim) (hb : b < f.mesh.ndim)
     (hab : a ≠ b) (hm : rotMesh f.mesh (f.mesh.region.dims.getD a "") (f.mesh.region.dims.getD b "") = .ok R.mesh)
     (hv : R.valid = rot90Arr f.valid a b) (hn : R.nvdim = f.nvdim) : IsRot90 f R a b := by
-  obtain ⟨m1, m2, m3, m4, m5⟩ := rotMesh_ok f R.mesh a b wf ha hb hab hm
+  obtain ⟨m1, m2, m3, m4, m5⟩ := rotMesh_ok f R.mesh a b wf ha hb hab tw.bc_lower hm
+  obtain ⟨pa, pb, pe⟩ := periodic_turn f R a b wf.dims ha hb hab tw.turns m3 m2
   have na : R.mesh.nAt a = f.mesh.nAt b := by
     unfold Mesh.nAt; rw [m1, swapAt_getD_left _ _ _ _ hab (by rw [wf.n_len]; exact ha)]; rfl
   have nb : R.mesh.nAt b = f.mesh.nAt a := by
@@ -218,7 +333,7 @@ theorem isRot90_of_mesh (f R : Fld) (a b : Nat) (wf : MeshWf f) (ha : a < f.mesh
   have ne : ∀ e, e ≠ a → e ≠ b → R.mesh.nAt e = f.mesh.nAt e := by
     intro e hea heb
     unfold Mesh.nAt; rw [m1, swapAt_getD_other _ _ _ _ _ hea heb]
-  refine ⟨m4, m3, m2, na, nb, ne, ?_, ?_, ?_, ?_, hn⟩
+  refine ⟨m4, m3, pa, pb, pe, na, nb, ne, ?_, ?_, ?_, ?_, hn⟩
   · unfold Mesh.cellAt; rw [m5 a ha, na]; simp
   · unfold Mesh.cellAt; rw [m5 b hb, nb]; simp [Ne.symm hab]
   · intro e hea heb
@@ -274,7 +389,7 @@ theorem isRot90_of_mesh (f R : Fld) (a b : Nat) (wf : MeshWf f) (ha : a < f.mesh
     exact ⟨_, rfl⟩
 
 /-- quarter turn of a scalar field: geometry, and every value is moved, none altered -/
-theorem rot90Fld_scalar (f R : Fld) (a b : Nat) (wf : MeshWf f) (hn : f.nvdim = 1) (ha : a < f.mesh.ndim)
+theorem rot90Fld_scalar (f R : Fld) (a b : Nat) (wf : MeshWf f) (tw : TurnWf f a b) (hn : f.nvdim = 1) (ha : a < f.mesh.ndim)
     (hb : b < f.mesh.ndim) (hab : a ≠ b)
     (h : rot90Fld f (f.mesh.region.dims.getD a "") (f.mesh.region.dims.getD b "") = .ok R) :
     IsRot90 f R a b ∧ (∀ i, R.data.get i = f.data.get (rotIdx f a b i)) ∧ R.unit = f.unit := by
@@ -289,7 +404,7 @@ theorem rot90Fld_scalar (f R : Fld) (a b : Nat) (wf : MeshWf f) (hn : f.nvdim = 
     rw [if_neg h1] at h
     obtain ⟨m1, m2, m3, m4, m5, _, m7, _⟩ := mkFld_ok h
     rw [← m1] at hmesh
-    refine ⟨isRot90_of_mesh f R a b wf ha hb hab hmesh m4 m2, ?_, m5⟩
+    refine ⟨isRot90_of_mesh f R a b wf tw ha hb hab hmesh m4 m2, ?_, m5⟩
     · intro i
       rw [m3]
       unfold rot90Arr rotIdx Mesh.nAt
@@ -354,9 +469,6 @@ theorem lineD_reverse (p : Bool) (o : Nat) (h : Rat) (L : Nat) (g : Nat → Rat)
       rw [e1, e2, e3]; ring
 
 
-theorem periodic_rot {f R : Fld} {a b : Nat} (hr : IsRot90 f R a b) (x : Nat) : periodic R x = periodic f x := by
-  unfold periodic; rw [hr.bc, hr.dims]
-
 theorem fullyValid_rot {f R : Fld} {a b : Nat} (hr : IsRot90 f R a b) (hf : FullyValid f) : FullyValid R :=
   fun i => by obtain ⟨j, hj⟩ := hr.valid i; rw [hj]; exact hf j
 
@@ -365,14 +477,14 @@ original along the SECOND axis at the cell the value came from: the line is the 
 along `b`, run backwards -/
 theorem D_rot_a (f R : Fld) (a b c c' o : Nat) (s : Rat) (i : List Nat) (hr : IsRot90 f R a b) (hf : FullyValid f)
     (ho : o = 1 ∨ o = 2) (hab : a ≠ b) (hla : a < i.length) (hlb : b < i.length)
-    (hper : periodic f a = periodic f b) (hia : i.getD a 0 < f.mesh.nAt b)
+    (hia : i.getD a 0 < f.mesh.nAt b)
     (hdata : ∀ i', (R.data.get i').getD c 0 = s * (f.data.get (rotIdx f a b i')).getD c' 0) :
     D R a o c i = revSign o * s * D f b o c' (rotIdx f a b i) := by
   have hrb : (rotIdx f a b i).getD b 0 = f.mesh.nAt b - 1 - i.getD a 0 := by
     unfold rotIdx; rw [getD_setAt_same _ _ _ _ (by rw [setAt_length]; exact hlb)]
   rw [D_all_valid R a o c i ho (fun j _ => fullyValid_rot hr hf _) (by rw [hr.n_a]; exact hia),
       D_all_valid f b o c' _ ho (fun j _ => hf _) (by rw [hrb]; omega)]
-  rw [periodic_rot hr, hr.h_a, hr.n_a, hper, hrb]
+  rw [hr.per_a, hr.h_a, hr.n_a, hrb]
   have step : (fun j => (R.data.line a i j).getD c 0)
       = fun k => s * (fun l => (f.data.line b (rotIdx f a b i) l).getD c' 0) (f.mesh.nAt b - 1 - k) := by
     funext k
@@ -388,14 +500,14 @@ theorem D_rot_a (f R : Fld) (a b c c' o : Nat) (s : Rat) (i : List Nat) (hr : Is
 /-- … along the SECOND axis of the plane = derivative of the original along the FIRST axis -/
 theorem D_rot_b (f R : Fld) (a b c c' o : Nat) (s : Rat) (i : List Nat) (hr : IsRot90 f R a b) (hf : FullyValid f)
     (ho : o = 1 ∨ o = 2) (hab : a ≠ b) (hla : a < i.length) (hlb : b < i.length)
-    (hper : periodic f a = periodic f b) (hib : i.getD b 0 < f.mesh.nAt a)
+    (hib : i.getD b 0 < f.mesh.nAt a)
     (hdata : ∀ i', (R.data.get i').getD c 0 = s * (f.data.get (rotIdx f a b i')).getD c' 0) :
     D R b o c i = s * D f a o c' (rotIdx f a b i) := by
   have hra : (rotIdx f a b i).getD a 0 = i.getD b 0 := by
     unfold rotIdx; rw [getD_setAt_ne _ _ _ _ _ hab, getD_setAt_same _ _ _ _ hla]
   rw [D_all_valid R b o c i ho (fun j _ => fullyValid_rot hr hf _) (by rw [hr.n_b]; exact hib),
       D_all_valid f a o c' _ ho (fun j _ => hf _) (by rw [hra]; exact hib)]
-  rw [periodic_rot hr, hr.h_b, hr.n_b, ← hper, hra, ← lineD_smul]
+  rw [hr.per_b, hr.h_b, hr.n_b, hra, ← lineD_smul]
   apply lineD_congr
   intro k
   unfold NDA.line
@@ -408,7 +520,7 @@ theorem D_rot_b (f R : Fld) (a b c c' o : Nat) (s : Rat) (i : List Nat) (hr : Is
 
 /-- … along an axis outside the plane: unchanged -/
 theorem D_rot_e (f R : Fld) (a b e c c' o : Nat) (s : Rat) (i : List Nat) (hr : IsRot90 f R a b) (hf : FullyValid f)
-    (ho : o = 1 ∨ o = 2) (hea : e ≠ a) (heb : e ≠ b)
+    (ho : o = 1 ∨ o = 2) (he : e < f.mesh.ndim) (hea : e ≠ a) (heb : e ≠ b)
     (hie : i.getD e 0 < f.mesh.nAt e)
     (hdata : ∀ i', (R.data.get i').getD c 0 = s * (f.data.get (rotIdx f a b i')).getD c' 0) :
     D R e o c i = s * D f e o c' (rotIdx f a b i) := by
@@ -416,7 +528,7 @@ theorem D_rot_e (f R : Fld) (a b e c c' o : Nat) (s : Rat) (i : List Nat) (hr : 
     unfold rotIdx; rw [getD_setAt_ne _ _ _ _ _ heb, getD_setAt_ne _ _ _ _ _ hea]
   rw [D_all_valid R e o c i ho (fun j _ => fullyValid_rot hr hf _) (by rw [hr.n_e e hea heb]; exact hie),
       D_all_valid f e o c' _ ho (fun j _ => hf _) (by rw [hre]; exact hie)]
-  rw [periodic_rot hr, hr.h_e e hea heb, hr.n_e e hea heb, hre, ← lineD_smul]
+  rw [hr.per_e e he hea heb, hr.h_e e hea heb, hr.n_e e hea heb, hre, ← lineD_smul]
   apply lineD_congr
   intro k
   unfold NDA.line
@@ -786,7 +898,7 @@ theorem rot90Fld_vector_meta (f R : Fld) (a b : Nat) (vs : List String) (hd : Di
     · cases h
 
 /-- `Mesh.rotate90` accepts every pair of different axes of a well-formed mesh without subregions -/
-theorem rotMesh_succeeds (f : Fld) (a b : Nat) (wf : MeshWf f) (hsub : f.mesh.subs = [])
+theorem rotMesh_succeeds (f : Fld) (a b : Nat) (wf : MeshWf f) (tw : TurnWf f a b) (hsub : f.mesh.subs = [])
     (ha : a < f.mesh.ndim) (hb : b < f.mesh.ndim) (hab : a ≠ b) :
     ∃ m', rotMesh f.mesh (f.mesh.region.dims.getD a "") (f.mesh.region.dims.getD b "") = .ok m' := by
   unfold rotMesh
@@ -869,15 +981,16 @@ theorem rotMesh_succeeds (f : Fld) (a b : Nat) (wf : MeshWf f) (hsub : f.mesh.su
         exact pos a ha
       · rw [swapAt_getD_other _ _ _ _ _ hka hkb]
         exact pos k hkn
-  have c3 : Mesh.bcOk r.dims f.mesh.bc.toLower = true := by rw [r3, wf.bc_lower]; exact wf.bc_ok
+  have c3 : Mesh.bcOk r.dims (rotBc1 f.mesh.bc (f.mesh.region.dims.getD a "") (f.mesh.region.dims.getD b "")).toLower = true := by
+    rw [r3, tw.bc_lower]; exact tw.bc_ok
   simp only [c1, c2, c3, if_false, Bool.false_eq_true, Bool.not_true]
   exact ⟨_, rfl⟩
 
 /-- `Field.rotate90` accepts every plain scalar field on a well-formed mesh without subregions -/
-theorem rot90_accepts_plain (f : Fld) (a b : Nat) (wf : MeshWf f) (hsub : f.mesh.subs = []) (hp : Plain f)
+theorem rot90_accepts_plain (f : Fld) (a b : Nat) (wf : MeshWf f) (tw : TurnWf f a b) (hsub : f.mesh.subs = []) (hp : Plain f)
     (ha : a < f.mesh.ndim) (hb : b < f.mesh.ndim) (hab : a ≠ b) :
     ∃ R, rot90Fld f (f.mesh.region.dims.getD a "") (f.mesh.region.dims.getD b "") = .ok R := by
-  obtain ⟨m', hm'⟩ := rotMesh_succeeds f a b wf hsub ha hb hab
+  obtain ⟨m', hm'⟩ := rotMesh_succeeds f a b wf tw hsub ha hb hab
   unfold rot90Fld
   rw [hm']
   simp only []
@@ -904,6 +1017,12 @@ theorem meshWf_of_mesh {f g : Fld} (wf : MeshWf f) (hm : g.mesh = f.mesh) (hs : 
    by rw [hm]; exact wf.units_len, by rw [hm]; exact wf.pos, by rw [hm]; exact wf.bc_lower,
    by rw [hm]; exact wf.bc_ok, hs⟩
 
+theorem turnWf_of_mesh {f g : Fld} {a b : Nat} (tw : TurnWf f a b) (hm : g.mesh = f.mesh) : TurnWf g a b := by
+  refine ⟨?_, by rw [hm]; exact tw.bc_lower, by rw [hm]; exact tw.bc_ok⟩
+  unfold BcTurns periodic
+  rw [hm]
+  exact tw.turns
+
 theorem plain_of_laplace_scalar {f g : Fld} (hp : Plain f) (h : laplace f = .ok g) : Plain g := by
   unfold laplace at h
   rw [if_pos hp.1] at h
@@ -914,14 +1033,14 @@ theorem plain_of_laplace_scalar {f g : Fld} (hp : Plain f) (h : laplace f = .ok 
 
 /-- `Field.rotate90` accepts a vector field with well-formed labels, a mapping whose keys are the
 labels, and both axes of the plane paired with a component -/
-theorem rot90_accepts_vector (f : Fld) (a b v1 v2 : Nat) (vs : List String) (wf : MeshWf f) (hsub : f.mesh.subs = [])
+theorem rot90_accepts_vector (f : Fld) (a b v1 v2 : Nat) (vs : List String) (wf : MeshWf f) (tw : TurnWf f a b) (hsub : f.mesh.subs = [])
     (hn : 1 < f.nvdim) (hv : f.vdims = some vs) (hvl : vs.length = f.nvdim) (hvd : hasDup vs = false)
     (hkeys : (f.vmap.map (·.1)).isPerm vs = true) (hmap : 0 < f.vmap.length)
     (ha : a < f.mesh.ndim) (hb : b < f.mesh.ndim) (hab : a ≠ b)
     (h1 : (rDimLast f (f.mesh.region.dims.getD a "")).bind f.vdimIndex = some v1)
     (h2 : (rDimLast f (f.mesh.region.dims.getD b "")).bind f.vdimIndex = some v2) :
     ∃ R, rot90Fld f (f.mesh.region.dims.getD a "") (f.mesh.region.dims.getD b "") = .ok R := by
-  obtain ⟨m', hm'⟩ := rotMesh_succeeds f a b wf hsub ha hb hab
+  obtain ⟨m', hm'⟩ := rotMesh_succeeds f a b wf tw hsub ha hb hab
   unfold rot90Fld
   rw [hm']
   simp only []
